@@ -247,6 +247,12 @@ pub fn pool() -> Vec<String> {
     ] {
         v.push(s.to_string());
     }
+    for s in [
+        "Warm @milk{2%fluid ounces} and later add @&milk{1%cup}.", "Calentar @leche{2%onzas líquidas} y luego @&leche{1%taza}, esperar ~{5%minutos}.", "Añadir 3 onzas líquidas de leche y 2 cuartos de agua.",
+        "---\ntitle: Soup\n---\nBoil the @water{1%l} and waits.\n", "---\ntitle: Tea!\nserves: 2\n---\nBoil the @water{1%l}.\n", "---\nprep time: 10 min\ncook time: 1 h\ntime: 70 min\ntitle: Stew\n---\n\nCook the @beef{500%g} slowly.\n",
+    ] {
+        v.push(s.to_string());
+    }
     for s in ["Heat the #&pan{} first.", "Use the #&pot{} and the @&flour{} again.", "Add @&flour{} to the #&bowl{}.", ">> [mode]: steps\nUse #pan and @salt here.\n", ">> [duplicate]: ref\n#&lid{} then ~&rest{5%min}"] {
         v.push(s.to_string());
     }
@@ -268,6 +274,14 @@ impl Log {
     }
 }
 
+fn spanish_converter() -> Converter {
+    std::fs::read_to_string("/repo/units/spanish.toml")
+        .ok()
+        .and_then(|t| toml::from_str::<cooklang::convert::UnitsFile>(&t).ok())
+        .and_then(|f| Converter::builder().with_units_file(cooklang::convert::UnitsFile::bundled()).ok()?.with_units_file(f).ok()?.finish().ok())
+        .unwrap_or_else(Converter::bundled)
+}
+
 fn configs() -> Vec<(Extensions, Converter, &'static str)> {
     vec![
         (Extensions::all(), Converter::bundled(), "all/bundled"),
@@ -279,6 +293,8 @@ fn configs() -> Vec<(Extensions, Converter, &'static str)> {
         // every extension with a converter that knows no unit at all: what the unit-aware scans learn from one
         // converter must not reach a parser built with another
         (Extensions::all(), Converter::empty(), "all/empty"),
+        // the shipped translation layer on the bundled units: longer unit names than the bundled converter knows
+        (Extensions::all(), spanish_converter(), "all/bundled+spanish"),
     ]
 }
 
@@ -416,6 +432,34 @@ fn sequential(ctx: &mut Ctx, pool: &[String], log: &mut Log, calls: usize) {
                     if a != b {
                         let case = Case::new("history", buf.as_str(), cfgs[ci].0.bits(), cfgs[ci].2).with(json!({"edited_at": pos, "original": pool[i]}));
                         ctx.violation(&case, "history", "result_depends_on_text_previously_at_the_same_address", format!("after parsing {:?} from a buffer and editing byte {pos} in place, the buffer parses differently from a copy of it", pool[i]));
+                    }
+                }
+            }
+        }
+        if k % 7 == 3 {
+            // a buffer that is cleared and refilled with ANOTHER text of the same length (same address, same length): the
+            // refill parses like a copy of it elsewhere. The other text is padded with trailing blanks up to the length.
+            let j = r.below(pool.len());
+            let (a, b) = (&pool[i], &pool[j]);
+            if b.len() <= a.len() && a != b && !b.ends_with('\\') {
+                let padded = format!("{b}{}", " ".repeat(a.len() - b.len()));
+                let res = crate::core::guarded(|| {
+                    let mut buf = String::with_capacity(a.len() + 8);
+                    buf.push_str(a);
+                    let _ = parser.parse(&buf);
+                    let _ = parser.parse_metadata(&buf);
+                    buf.clear();
+                    buf.push_str(&padded);
+                    let refilled = image_of(parser, &buf);
+                    let copy = format!("{}", padded.as_str());
+                    let elsewhere = image_of(parser, &copy);
+                    (refilled, elsewhere)
+                });
+                if let Ok((x, y)) = res {
+                    ctx.count("refilled_buffers_compared");
+                    if x != y {
+                        let case = Case::new("history", padded.as_str(), cfgs[ci].0.bits(), cfgs[ci].2).with(json!({"previous_text_in_the_buffer": a}));
+                        ctx.violation(&case, "history", "result_depends_on_text_previously_at_the_same_address", format!("after parsing {a:?} from a buffer and refilling it with this text of the same length, the buffer parses differently from a copy of it"));
                     }
                 }
             }
